@@ -81,10 +81,13 @@ def _structure_one(text):
     from ..cref import CSyntaxError, Unsupported
     try:
         t2, n = parenth.paren(text)
-    except (CSyntaxError, Unsupported) as e:
-        return ("gap", str(e)[:80], text, "")
-    except RecursionError:
-        return ("gap", "recursion", text, "")
+    except (CSyntaxError, Unsupported, RecursionError) as e:
+        # outside the parenthesiser: still record whether the compiler's parser accepts the text (acceptance baseline)
+        try:
+            corpus.parse_stmt(text)
+            return ("gap-parses", str(e)[:80], text, "")
+        except Exception as e2:  # noqa
+            return ("gap-rejected", type(e2).__name__, text, "")
     if n == 0:
         return ("trivial", "", text, t2)
     try:
@@ -105,13 +108,29 @@ def _structure_one(text):
 def _structure(rep, tier, progs):
     """Every family program, a mixed-family sample and every bundled behaviour part against its full parenthesisation."""
     B = corpus.load_behaviors()
-    texts = list(dict.fromkeys(progs + families.mixed(tier, 1500 if tier == "thorough" else 150, salt=17)))
+    # parse-level acceptance: constructs the transformer rejects later must still PARSE as before (the grammar is the full C grammar)
+    parse_only = families.c15(tier) + ["{ RxV = RsV ? RtV, RuV : 3; }", "{ RxV = RsV ? (RtV, RuV) : 3; }", "{ RxV = (RsV, RtV) ? 1 : 2; }", "{ RxV = RsV ? 1 : (RtV, 2); }",
+                                      "{ for (i = 0, j = 1; i < 2; i++, j--) RxV = RxV + j; }", "{ RxV = sizeof(int32_t) + sizeof RsV; }", "{ RxV = -RsV ? ~RtV : !RuV; }",
+                                      "{ int32_t a = RsV, b = RtV; RxV = a + b; }", "{ RxV = RsV; ; ; }", "{ { { } } }", "{ RxV = (int32_t)(int8_t)(RsV); }",
+                                      "{ if (RsV) ; }", "{ RxV = RsV == RtV != RuV; }", "{ RxV = RsV < RtV < RuV; }", "{ RxV = a.b.c; }", "{ RxV = a->b->c; }",
+                                      "{ RxV = f(g(h(RsV))); }", "{ RxV = f(RsV, (RtV, RuV)); }", "{ RxV = arr[RsV][RtV]; }", "{ RxV = *&RsV; }", "{ RxV = RsV ? : RtV; }"]
+    texts = list(dict.fromkeys(progs + families.mixed(tier, 1500 if tier == "thorough" else 150, salt=17) + parse_only))
     items = [("prog", t) for t in texts] + [(f"insn:{n}/{i}", b) for n in sorted(B) for i, b in enumerate(B[n])]
     res = framework.pmap(_structure_one, [t for _, t in items], chunksize=8)
     cnt = {}
+    import hashlib
+    base = framework.load_baseline("c17_parse_ok.json")
+    base = set(base) if base is not None else None
+    parsed_ok = set()
     for (k, _), (v, detail, text, t2) in zip(items, res):
         cnt[v] = cnt.get(v, 0) + 1
         key = f"struct:{text}" if k == "prog" else f"struct:{k}"
+        h = hashlib.sha256(text.encode()).hexdigest()[:16]
+        if v in ("same", "trivial", "differs", "paren-rejected", "gap-parses"):
+            parsed_ok.add(h)
+        elif base is not None and h in base:
+            rep.add("parse:" + (text if k == "prog" else k), "violation", "parse-acceptance",
+                    f"a text the pinned grammar parses is now rejected by the parser ({detail})", c=text)
         if v == "differs":
             rep.add(key, "violation", "structure", f"the parser groups the text differently from C: tree(T) != tree(fully parenthesised T); {detail}",
                     c=text, parenthesised=t2)
@@ -120,12 +139,17 @@ def _structure(rep, tier, progs):
         elif v in ("same", "trivial"):
             rep.add(key, "ok")
         # gap / rejected: outside the oracle (vector / 128-bit behaviours the reference lexer does not cover; text the parser rejects)
+    if os.environ.get("VERIF_WRITE_BASELINE"):
+        # developer action: which texts the pinned grammar parses (a later parse-level rejection of one of them is reported)
+        with open(os.path.join(framework.VERIF, "baselines", "c17_parse_ok.json"), "w") as f:
+            json.dump(sorted(parsed_ok | (base or set())), f, indent=0)
     rep.coverage["structure_oracle"] = dict(
         counts=cnt, explanation="an independent precedence-climbing parser (vf/parenth.py, written from the C11 expression grammar) wraps every "
         "composite sub-expression of T in parentheses, leaving the statement structure as it is; '(' expr ')' is an inlined alternative of "
         "the compiler's grammar, so a parser that groups as C prescribes gives T and paren(T) the identical tree.  Catches regroupings "
         "that no value can observe.  No solver involved (tree equality); 'gap' = behaviours outside the reference lexer (HVX vectors, "
-        "128-bit helpers, pointers)")
+        "128-bit helpers, pointers); parse-level acceptance of every text (incl. the C15 constructs the transformer rejects later) is "
+        "compared with baselines/c17_parse_ok.json")
     return cnt
 
 
